@@ -91,6 +91,9 @@ Fixpoint upd {A} (i : nat) (f : A -> A) (l : list A) : list A :=
   | x :: t, S j => x :: upd j f t
   end.
 
+Definition drop_record (k : bytes) (recs : list (bytes * nat * list bytes)) : list (bytes * nat * list bytes) :=
+  filter (fun rc => negb (bytes_eqb (fst (fst rc)) k)) recs.
+
 Definition on_form (f : form -> form) (r : sreq) : sreq :=
   {| sr_form := f (sr_form r); sr_ordered := sr_ordered r; sr_merged := sr_merged r; sr_body := sr_body r; sr_snap := sr_snap r |}.
 
@@ -126,7 +129,14 @@ Definition sstep (s : sstate) (o : sop) : sstate * list sout :=
   | SReqAdd i f =>
       ({| ss_client := ss_client s; ss_reqs := upd i (on_form (fun m => merge_form m f)) (ss_reqs s); ss_cell := ss_cell s; ss_owner := ss_owner s |}, [])
   | SReqSet i k v =>
-      ({| ss_client := ss_client s; ss_reqs := upd i (on_form (set_value k v)) (ss_reqs s); ss_cell := ss_cell s; ss_owner := ss_owner s |}, [])
+      (* url.Values.Set stores a NEW one-element slice: unmergeClientSettings (3f45fee) recognises "not
+         longer than right after the merge and another backing array" as replaced by the caller and leaves
+         the key alone - the merge record of k is void *)
+      ({| ss_client := ss_client s;
+          ss_reqs := upd i (fun r => {| sr_form := set_value k v (sr_form r); sr_ordered := sr_ordered r;
+                                        sr_merged := drop_record k (sr_merged r); sr_body := sr_body r;
+                                        sr_snap := sr_snap r |}) (ss_reqs s);
+          ss_cell := ss_cell s; ss_owner := ss_owner s |}, [])
   | SReqOrdered i kvs =>
       ({| ss_client := ss_client s;
           ss_reqs := upd i (fun r => {| sr_form := sr_form r; sr_ordered := sr_ordered r ++ kvs;
